@@ -142,6 +142,22 @@ def panics (st : State α) : Elem α → Option String
   | .item _ => some "other:event_time_windows_can_only_handle_times"
   | _ => none
 
+/-- The input contract the code itself enforces (`assert!(ts >= last_watermark)`, event_time.rs:19):
+    like `wmSafeGo` (Model/Elem.lean) but an element stamped EXACTLY the last watermark is
+    accepted. Such an element violates the engine's watermark contract (C06: strictly later than
+    every earlier watermark), but the manager neither panics nor mishandles it: see
+    `etwin_preserves_wmsafe_lax`. -/
+def wmSafeLaxGo {β : Type} : Option Int → List (Elem β) → Bool
+  | _, [] => true
+  | w, Elem.ts _ t :: rest =>
+      (match w with | some w => decide (w ≤ t) | none => true) && wmSafeLaxGo w rest
+  | w, Elem.wm t :: rest =>
+      (match w with | some w => decide (w < t) | none => true) && wmSafeLaxGo (some t) rest
+  | _, Elem.far :: rest => wmSafeLaxGo none rest
+  | w, _ :: rest => wmSafeLaxGo w rest
+
+def wmSafeLaxOk {β : Type} (tr : List (Elem β)) : Bool := wmSafeLaxGo none tr
+
 /-- `recycle` (event_time.rs:113-115) -/
 def recycle (st : State α) : Bool := st.ws.isEmpty
 
